@@ -12,6 +12,7 @@ if [ -n "$(git status --porcelain)" ]; then echo "REFUSING: /repo has uncommitte
 if ! git apply --check "$patch" 2>/dev/null; then echo "PATCH DOES NOT APPLY: $patch"; exit 2; fi
 git apply "$patch"
 tmp=$(mktemp -d)
+export GCV_EVIDENCE_DIR=$tmp/evidence
 echo $props | tr ' ' '\n' | xargs -P 6 -I{} sh -c "$GCV check --property {} > $tmp/{}.out 2>&1"
 for p in $props; do
   grep -E "^VIOLATION|ERROR" $tmp/$p.out | cut -c1-260 | sed "s/^/[$p] /"
